@@ -99,6 +99,7 @@ func init() {
 		ifaces:       map[string]string{"Verifiers": "Bytes → Int → (Verifier × Option String)"},
 		nonNilIfaces: map[string]bool{"Verifiers": true},
 		errCarry:     map[string]bool{"UnverifiedNoteError": true},
+		exclude:      map[string]bool{"VerifierList": true},
 		errFields:    map[string]bool{"InvalidSignatureError": true},
 		fns:          []string{"isValidName", "chop", "Open"},
 		absFuncs:     map[string]string{"unicode.IsSpace": "isSpace"},
